@@ -220,11 +220,13 @@ SRC_TIE_TEXT = {
     'ParserSession': 'the Parser tie and the C05 refinement composed: any session of feed/feed_byte/get_message/pending on the translated Parser never raises and answers what the abstract specification answers',
     'MetaRoundTrip': 'the meta framing tie and the C09 theorems composed: translated from_bytes on what translated bytes() produces gives back every checked meta message',
     'MsgDecision': 'the Msg tie and the C02 decision theorem composed: the translated decode_message accepts exactly the well-formed encodings (independent grammar), returns a valid message whose translated encoding is the input, and raises ValueError otherwise',
+    'PortsIter': 'BaseInput.__iter__ (for msg in port) of ports.py = the model\'s iteration for every run that does not hang: same messages, same ending (silent on a closed port), same state',
     'PortsLifecycle': 'the ports tie and the C11 lifecycle theorems composed: translated close() is idempotent, releases the device once, and send is refused afterwards',
     'FileConformance': 'the reader/writer ties and the C08 theorems composed: the translated _load reads EVERY standard-conformant encoding (relation EncFile: running status, padded quantities, longer headers) to exactly the encoded file, clip on or off; what the translated save writes is a member of that relation',
     'TracksMerge': 'the tracks tie and the C12 theorems composed: the translated merge_tracks never raises and its result has exactly the events of the inputs at their absolute ticks, sorted, stable, one final end_of_track, duration of the longest input',
     'Charset': 'the context manager meta_charset of meta.py (generator with try/yield/finally rebinding a module global), translated: for EVERY block - returning, raising, rebinding the global itself, nesting further scopes - the charset in force afterwards is the one from before, the block sees the temporary one; equals the model\'s withCharset',
     'Syx': 'read_syx_file of syx.py on the contents of the file (binary, or hex text through re.sub and bytearray.fromhex, then the Parser and the sysex filter) = the model\'s readSyx for every file of bytes',
+    'Sockets': 'parse_address of sockets.py (split on the colon, exactly two parts, int() as a parameter, the port range with 2**16) = the model\'s parseAddress on every text; with C18_address: every formatted host:port pair is read back',
     'Parser': 'the Parser class of parser.py (feed, feed_byte, _decode over the tokenizer\'s generator, get_message, pending) = the model\'s parser operations for every state and input',
     'Msg': 'decode_message and encode_message whole (dicts as insertion-ordered association lists, SPEC_BY_STATUS / SPEC_BY_TYPE / CHANNEL_MESSAGES and both dispatch tables from the working tree): equal to the model\'s decode / encode on every int list / every message, with the round trip at source level',
     'Tok': 'the Tokenizer state machine of tokenizer.py (_feed_status_byte, _feed_data_byte, feed_byte, feed)',
@@ -237,8 +239,8 @@ SRC_TIE_TEXT = {
 }
 SRC_TIE = {
     'C01': ['Codec', 'Msg'], 'C02': ['Codec', 'Msg', 'MsgDecision'], 'C03': ['Codec'],
-    'C04': ['Tok', 'Parser', 'ParserSession'], 'C05': ['Tok', 'Parser', 'ParserSession'], 'C06': ['Tok', 'Parser', 'ParserSession'], 'C18': ['Tok'], 'C19': ['Tok', 'Parser', 'Syx'],
-    'C07': ['Vlq', 'VlqRead', 'Tracks', 'Writer', 'Reader', 'FileRoundTrip'], 'C08': ['Vlq', 'VlqRead', 'Writer', 'Reader', 'FileConformance'], 'C09': ['Meta', 'Vlq', 'MetaFrame', 'MetaRoundTrip'], 'C10': ['Ports'], 'C11': ['Ports', 'PortsLifecycle'], 'C12': ['Tracks', 'TracksMerge'], 'C17': ['Charset'], 'C16': ['Tracks'],
+    'C04': ['Tok', 'Parser', 'ParserSession'], 'C05': ['Tok', 'Parser', 'ParserSession'], 'C06': ['Tok', 'Parser', 'ParserSession'], 'C18': ['Tok', 'Sockets'], 'C19': ['Tok', 'Parser', 'Syx'],
+    'C07': ['Vlq', 'VlqRead', 'Tracks', 'Writer', 'Reader', 'FileRoundTrip'], 'C08': ['Vlq', 'VlqRead', 'Writer', 'Reader', 'FileConformance'], 'C09': ['Meta', 'Vlq', 'MetaFrame', 'MetaRoundTrip'], 'C10': ['Ports', 'PortsIter'], 'C11': ['Ports', 'PortsIter', 'PortsLifecycle'], 'C12': ['Tracks', 'TracksMerge'], 'C17': ['Charset'], 'C16': ['Tracks'],
 }
 
 
